@@ -138,7 +138,8 @@ func (r *replayer) step(s Step) error {
 		if ev, ok := r.lastEvent(kind); !ok || ev.X != s.X {
 			return fmt.Errorf("%s: read last_log_id=%d, the schedule says %d", s.A, ev.X, s.X)
 		}
-		r.alive = true
+		// the operation spawns the pipeline as soon as its OpenLedger call is released
+		r.alive, r.running = true, true
 	case "Spawn":
 		tag := r.cur.tag
 		if err := r.awaitRelease("Spawn", 0, func(c *Call) bool { return c.Kind == "OpenLedger" && c.Ep == tag }); err != nil {
@@ -215,8 +216,20 @@ func (r *replayer) step(s Step) error {
 			return fmt.Errorf("Store: unknown epoch %d", s.E)
 		}
 		return r.awaitRelease("Store", 0, func(c *Call) bool { return c.Kind == "Store" && c.Ep == tag && c.X == s.X })
-	case "Advance", "Handoff", "Close":
-		// internal steps of the code: they happen on their own
+	case "Retry":
+		// internal step (retry timer): wait until the code has done it, i.e. the new Accept call is on its gate
+		tag := r.epTag[s.E]
+		if c := r.w.AwaitCall(stepTimeout, func(c *Call) bool { return c.Kind == "Accept" && c.Ep == tag && sameIds(c.Ids, s.X, s.Y) }); c == nil {
+			return fmt.Errorf("Retry: the pipeline did not send the batch again (held: %v)", r.w.PendingCalls())
+		}
+	case "Handoff":
+		// internal step (channel hand-off): done when the subscriber's StorePipelineState is on its gate
+		tag := r.epTag[s.E]
+		if c := r.w.AwaitCall(stepTimeout, func(c *Call) bool { return c.Kind == "Store" && c.Ep == tag && c.X == s.X }); c == nil {
+			return fmt.Errorf("Handoff: the subscriber did not receive %d (held: %v)", s.X, r.w.PendingCalls())
+		}
+	case "Advance", "Close":
+		// internal steps of the code without an observable effect of their own
 	default:
 		return fmt.Errorf("unknown schedule action %q", s.A)
 	}
@@ -255,7 +268,9 @@ func RunSchedule(sched Schedule) Result {
 		res.WallMs = time.Since(t0).Milliseconds()
 		return res
 	}
-	r.launchPending()
+	// an operation whose Begin step was the last thing the schedule said about it has had no effect yet:
+	// it is simply not called
+	r.pendOp = ""
 	if err := r.join(); err != nil {
 		return fail(err)
 	}
